@@ -9,7 +9,7 @@ HOOKS = {
     "guard": "verif",
     "enable": "harness is built with `go1.26 test -c -tags verif` against /repo's working tree (module replace => /repo)",
     "baseline_off_cmd": "cd /repo && go test -mod=mod -vet=off -count=1 -timeout 25m ./...",
-    "source_commits": ["9a44b60", "1e6abcd", "c76d199", "90f19ed"],
+    "source_commits": ["9a44b60", "1e6abcd", "c76d199", "90f19ed", "2f6c263"],
     "add_only": True,
 }
 
